@@ -117,8 +117,16 @@ pub fn run(tape: &[u8], cx: &Cx) -> Outcome {
     let p: Vec<u32> = match t.weighted(&[4, 3, 2]) {
         0 if !s.is_empty() => {
             let i = t.choose(s.len());
-            let cap = if long_mode { 40 } else { 4 };
-            let l = t.choose(s.len() - i + 1).min(cap);
+            // long mode: pattern lengths up to 135, a third of them next to a machine-word size
+            // (search code that packs the pattern into words, bit-parallel automata, hashed windows)
+            let cap = if long_mode { 135 } else { 4 };
+            let mut l = t.choose(s.len() - i + 1).min(cap);
+            if long_mode && t.bool_p(85) {
+                let w = t.pick(&[7usize, 8, 9, 15, 16, 17, 31, 32, 33, 63, 64, 65, 127, 128, 129]);
+                if w <= s.len() - i {
+                    l = w;
+                }
+            }
             let mut p = s[i..i + l].to_vec();
             // sometimes one character off (a near miss that shares a long prefix with a real occurrence)
             if long_mode && !p.is_empty() && t.bool_p(80) {
